@@ -529,8 +529,8 @@ func c06R1(p *Prog, r *Report) {
 	}
 	// 7. bitset: reviewed call sites
 	bitsetReviewed := map[string]string{
-		"router.(*RouteConfig).Route:sourceServerSet.Set(uint(index))":                              "index comes from serverIndexByName, whose values are positions in the server list; the set was created with capacity len(serverIndexByName)",
-		"router.(SourceServerCriterion).Meet:bitset.BitSet(c).IsSet(uint(requestInfo.ServerIndex))": "ServerIndex is the position of the serving server in the same list the set's capacity was taken from (service.Config.Manager passes i to Initialize)",
+		"router.(*RouteConfig).Route:Set on local:bitset.BitSet index local:int":                               "index comes from serverIndexByName, whose values are positions in the server list; the set was created with capacity len(serverIndexByName)",
+		"router.(SourceServerCriterion).Meet:IsSet on recv:router.SourceServerCriterion index param.field:int": "ServerIndex is the position of the serving server in the same list the set's capacity was taken from (service.Config.Manager passes i to Initialize)",
 	}
 	for _, pkg := range p.All {
 		if pkg.Syntax == nil || relPkg(pkg.PkgPath) == "bitset" {
@@ -543,7 +543,21 @@ func c06R1(p *Prog, r *Report) {
 				}
 				switch cs.Fn.Name() {
 				case "IsSet", "Set", "Unset", "Flip":
+					// keyed by the roles and types of the set and of the index (conversions
+					// stripped), not by what the variables are called
+					strip := func(e ast.Expr) ast.Expr {
+						for {
+							inner, isConv := isConversionExpr(fc.Info(), ast.Unparen(e))
+							if !isConv {
+								return ast.Unparen(e)
+							}
+							e = inner
+						}
+					}
 					key := fc.Name + ":" + exprStr(cs.Call)
+					if sel, isSel := ast.Unparen(cs.Call.Fun).(*ast.SelectorExpr); isSel && len(cs.Call.Args) == 1 {
+						key = fc.Name + ":" + cs.Fn.Name() + " on " + roleOf(fc, strip(sel.X)) + " index " + roleOf(fc, strip(cs.Call.Args[0]))
+					}
 					reason, ok := bitsetReviewed[key]
 					r.Check(ok, rule, key, cs.Pos(), "reviewed: "+reason, "BitSet."+cs.Fn.Name()+" panics on an index >= capacity and this call site is not a reviewed one")
 				}
